@@ -330,6 +330,29 @@ pub fn monitor(o: &Obs) -> Result<(), String> {
             _ => {}
         }
     }
+    // C08 / C10 / C11: the router lets go of a socket only for cause. A replier is unbound when its stream ends (or fails),
+    // when its sink fails, or when it is turned away as a second replier; a requestor's sink is dropped when that sink
+    // fails. Nothing another peer does — a requestor failing, leaving or arriving, a reply that can no longer be
+    // routed — costs a healthy peer its place (c08_*: only the failing child is evicted)
+    for (idx, e) in o.events.iter().enumerate() {
+        if let Ev::Dropped(_, id) = e {
+            let before = &o.events[..idx];
+            let cause = before.iter().any(|b| match b {
+                Ev::SinkReady(i, A::Err) | Ev::SinkFlush(i, A::Err) | Ev::SinkClose(i, A::Err) => i == id,
+                Ev::SinkSend(i, Frame::Error(_), _) if *id >= V => i == id,
+                Ev::SinkSend(i, _, false) => i == id && *id < V,
+                Ev::StreamEnd(i) | Ev::StreamErr(i) => i == id && *id >= V,
+                _ => false,
+            });
+            if !cause && !o.done {
+                return Err(if *id >= V {
+                    format!("C08/C10: replier v{} was unbound although its stream had not ended, its sink had not failed and it had not been turned away: what another peer did cost the topic its replier", *id - V)
+                } else {
+                    format!("C08/C11: requestor k{id} was dropped by the router although its sink never failed: it was accepted, and then abandoned because of what another peer did")
+                });
+            }
+        }
+    }
     // C11: a request the replier's sink refuses (it no longer fits the frame limit once tagged) is dropped, nothing
     // else: the replier stays bound
     for (idx, e) in o.events.iter().enumerate() {
